@@ -3,6 +3,7 @@ package c34
 
 import (
 	"fmt"
+	"runtime/debug"
 	"sort"
 	"strings"
 	"sync"
@@ -274,54 +275,60 @@ func shape(ch string) string {
 // ---------------------------------------------------------------------------------------------
 // the oracle
 
-// slotsOf hashes one operation's names with the oracle (once per key), compares the repository's
-// own redisSlot on the way, and reports whether all slots are equal.
-func slotsOf(c *kit.Case, names map[string]string) (ok bool, emptyTag bool, slots map[string]int) {
-	slots = make(map[string]int, len(names))
-	first, have := 0, false
-	ok = true
-	for role, key := range names {
+// checkOp hashes one script invocation's names with the oracle (once per key), compares the
+// repository's own redisSlot on the way, and requires one slot when the shard is a cluster.
+func checkOp(c *kit.Case, component string, cf *config, ch, op string, roles, keys []string) {
+	ev(1)
+	ok, emptyTag := true, false
+	first := 0
+	for i, key := range keys {
 		s, how := keySlot(key)
 		if got := int(centrifuge.VerifRedisSlot(key)); got != s {
 			report(c, "redisSlot-differs-from-cluster-keyslot", fmt.Sprintf("redisSlot(%q) = %d, Redis Cluster specification gives %d", key, got, s), map[string]any{"key": key})
 		}
-		slots[role] = s
 		if how == "empty-tag" {
 			emptyTag = true
 		}
-		if !have {
-			first, have = s, true
+		if i == 0 {
+			first = s
 		} else if s != first {
 			ok = false
 		}
 	}
-	return
+	cnt("redisSlot_keys_compared", len(keys))
+	if !cf.Cluster {
+		cnt("standalone_ops_no_slot_requirement", 1)
+		return
+	}
+	if ok {
+		cnt("cluster_ops_colocated", 1)
+		cnt("colocated_"+component+"_"+cf.Name, 1)
+		return
+	}
+	names, slots := map[string]string{}, map[string]int{}
+	for i, key := range keys {
+		names[roles[i]] = key
+		slots[roles[i]], _ = keySlot(key)
+	}
+	detail := map[string]any{"component": component, "config": cf.Name, "prefix": cf.Prefix, "partitions": cf.Partitions, "precomputed_tags": cf.Precomp,
+		"use_lists": cf.Lists, "channel": ch, "channel_quoted": fmt.Sprintf("%q", ch), "operation": op, "names": names, "slots": slots}
+	// two distinct failure causes: the "{" + channel + "}" tag is empty for Redis (channel begins
+	// with '}'), or anything else (names built with different tags).
+	class := component + "-keys-not-co-located"
+	if emptyTag {
+		class = component + "-empty-hash-tag-breaks-slot-co-location"
+	}
+	report(c, class, fmt.Sprintf("%s %s (%s): channel %q: %s", component, op, cf.Name, ch, fmtSlots(names, slots)), detail)
 }
 
-func checkOps(c *kit.Case, component string, cf *config, ch string, ops map[string]map[string]string) {
-	for op, names := range ops {
-		ev(1)
-		ok, emptyTag, slots := slotsOf(c, names)
-		cnt("redisSlot_keys_compared", len(names))
-		if !cf.Cluster {
-			cnt("standalone_ops_no_slot_requirement", 1)
-			continue
-		}
-		if ok {
-			cnt("cluster_ops_colocated", 1)
-			cnt("colocated_"+component+"_"+cf.Name, 1)
-			continue
-		}
-		detail := map[string]any{"component": component, "config": cf.Name, "prefix": cf.Prefix, "partitions": cf.Partitions, "precomputed_tags": cf.Precomp,
-			"use_lists": cf.Lists, "channel": ch, "channel_quoted": fmt.Sprintf("%q", ch), "operation": op, "names": names, "slots": slots}
-		// two distinct failure causes: the "{" + channel + "}" tag is empty for Redis (channel begins
-		// with '}'), or anything else (names built with different tags).
-		class := component + "-keys-not-co-located"
-		if emptyTag {
-			class = component + "-empty-hash-tag-breaks-slot-co-location"
-		}
-		report(c, class, fmt.Sprintf("%s %s (%s): channel %q: %s", component, op, cf.Name, ch, fmtSlots(names, slots)), detail)
+func checkOpMap(c *kit.Case, component string, cf *config, ch, op string, names map[string]string) {
+	var rb, kb [16]string
+	n := 0
+	for r, k := range names {
+		rb[n], kb[n] = r, k
+		n++
 	}
+	checkOp(c, component, cf, ch, op, rb[:n], kb[:n])
 }
 
 func fmtSlots(names map[string]string, slots map[string]int) string {
@@ -349,11 +356,8 @@ func checkName(c *kit.Case, cfs []*config, ch string, idem string) {
 	for _, cf := range cfs {
 		if cf.Broker {
 			names := cf.k.BrokerKeys(ch, idem)
-			ops := map[string]map[string]string{
-				// add-history script: KEYS = history, meta, result; publishes on channel
-				"publish-with-history": names,
-			}
-			checkOps(c, "redis-broker", cf, ch, ops)
+			// add-history script: KEYS = history, meta, result; publishes on channel
+			checkOpMap(c, "redis-broker", cf, ch, "publish-with-history", names)
 			ev(1)
 			if got := cf.k.BrokerExtractChannel(names["channel"]); got != ch {
 				report(c, "redis-broker-extract-channel-mismatch", fmt.Sprintf("RedisBroker (%s): extractChannel(%q) = %q, channel was %q", cf.Name, names["channel"], got, ch),
@@ -364,7 +368,7 @@ func checkName(c *kit.Case, cfs []*config, ch string, idem string) {
 		}
 		if cf.MapBroker {
 			names := cf.k.MapBrokerKeys(ch, idem)
-			checkOps(c, "redis-map-broker", cf, ch, map[string]map[string]string{"add/remove/cleanup": names})
+			checkOpMap(c, "redis-map-broker", cf, ch, "add/remove/cleanup", names)
 			ev(1)
 			if got := cf.k.MapBrokerExtractChannel(names["channel"]); got != ch {
 				report(c, "redis-map-broker-extract-channel-mismatch", fmt.Sprintf("RedisMapBroker (%s): extractChannel(%q) = %q, channel was %q", cf.Name, names["channel"], got, ch),
@@ -379,15 +383,9 @@ func checkName(c *kit.Case, cfs []*config, ch string, idem string) {
 				c.Inconclusive("PresenceKeys: " + err.Error())
 				return
 			}
-			ops := map[string]map[string]string{}
 			for op, ks := range keys {
-				m := map[string]string{}
-				for i, k := range ks {
-					m[keysRole[i]] = k
-				}
-				ops[op] = m
+				checkOp(c, "redis-presence", cf, ch, op, keysRole[:len(ks)], ks)
 			}
-			checkOps(c, "redis-presence", cf, ch, ops)
 		}
 		if cf.Cluster && special {
 			c.Nontrivial(cf.Name + " " + shape(ch))
@@ -428,9 +426,11 @@ func TestC34(t *testing.T) {
 			"the connection-less engine values are configured like the constructors configure them (prefix default, messagePrefix, partitionTags from redispartition.FindTags); only configurations the constructors accept are evaluated",
 			"the RedisMapBroker cleanup worker's own cleanup key (built inline in cleanupShard next to a Redis call) is not observable without Redis and is not covered",
 		},
-		Cases:           map[string]int{"quick": enumCases + 600, "thorough": enumCases + 20000},
+		Cases:           map[string]int{"quick": enumCases + 1000, "thorough": enumCases + 15000},
 		RequireCounters: []string{"cluster_ops_colocated", "extract_roundtrip_broker", "extract_roundtrip_map_broker", "names_leading_close_brace", "names_with_braces", "colocated_redis-broker_cluster", "colocated_redis-broker_cluster-sharded-precomputed", "colocated_redis-map-broker_cluster-sharded", "colocated_redis-presence_cluster"},
 		Run:             run,
+		// tiny live heap, millions of short-lived strings: collect less often (harness-side only)
+		Setup: func() { debug.SetGCPercent(2000) },
 	})
 }
 
